@@ -183,7 +183,7 @@ def items(tier):
 
 
 HIST_OPS = ['G1r', 'G2', 'G3', 'G4', 'L', 'P', 'S', 'M']
-HIST_KINDS = ['comb', 'seq', 'fsm', 'multiclk', 'beh']
+HIST_KINDS = ['comb', 'seq', 'fsm', 'multiclk', 'beh', 'lanes']
 
 
 def hist_space(tier):
